@@ -162,7 +162,7 @@ def check_case(case):
     raise core.HarnessError("unknown case kind %r" % kind)
 
 
-SHARD_SYN = [("default", None, None)] * 6 + [
+SHARD_SYN = [("default", None, None)] * 3 + [("blockbr", None, None), ("parens", None, None), ("latex", "#", "##")] + [
     ("php", None, None), ("erb", None, None), ("brackets", None, None), ("three", None, None), ("ops", None, None),
     ("default", "#", "##"), ("erb", "%%", "##"), ("php", ">>>", "##"), ("brackets", "#", None), ("default", "%%", "##"),
 ]
